@@ -441,9 +441,9 @@ impl Scenario for C15 {
     }
 
     fn run(&self, seed: u64, ch: Chooser, ctx: &RunCtx) -> RunOut {
-        let mut w = World::new(seed, ch);
-        if ctx.render {
-            w.render = Some(vec![]);
+        let mut w = mesh::new_world(seed, ch, ctx);
+        if ctx.step_cap.is_none() {
+            w.max_steps = 4_000_000; // 48 h of ticks, 3 x 65535 s spans
         }
         let mut states = vec![];
         let shape = if ctx.tier == Tier::Thorough && ctx.index >= MIXED_THOROUGH { 2 } else { ctx.index % 16 };
